@@ -25,11 +25,12 @@ from .common import Ctx, python_flags
 
 RULE = ("(a) helper timelines: period 1 ms-60 s, max_age in {1,1.25,1.5,2,2.5,3,10,1.1,2.7}, initial buffer 1-16, input "
         "period p/8..7p, <=60 samples, 2-12 ticks, boundary stamps T, T-W (±1 µs), future stamps, bursts, silences, "
-        "None/NaN; (b) the same through Resampler on the virtual loop with lateness scripts; non-trivial = a boundary "
+        "None/NaN/±inf values, fast sources whose buffer must grow to ~100..1400 samples (around warn 128 / max 1024); (b) the same through Resampler on the virtual loop with lateness scripts; non-trivial = a boundary "
         "stamp, a future stamp, a burst, a silence or a buffer resize occurs; distinct by canonical JSON hash")
 
 CORPUS = pathlib.Path(__file__).resolve().parent.parent / "corpus" / "C08"
-INTERESTING = {"stamp-at-T", "stamp-at-T-W", "future-stamp", "burst", "silence", "resized", "deque-dropped"}
+INTERESTING = {"stamp-at-T", "stamp-at-T-W", "future-stamp", "burst", "silence", "resized", "deque-dropped",
+               "infinite-sample", "fast-source"}
 
 
 def judge(ctx: Ctx, case: dict, impl: dict, tags: list[str], path: str, pairs: list) -> None:
@@ -103,6 +104,11 @@ def run(ctx: Ctx) -> None:
         rng = ctx.subrng("helper", i)
         r = rng.random()
         case, tags = g.gen_helper_case(rng, ordered=r < 0.9, exotic=r > 0.97)
+        run_helper(ctx, case, tags, pairs)
+    for i in range(ctx.budget(40, 1200)):
+        if ctx.boost > 1 and ctx.violations and i >= 40:
+            break
+        case, tags = g.gen_fast_source_case(ctx.subrng("fast", i))
         run_helper(ctx, case, tags, pairs)
     if ctx.tier == "thorough":
         for case in exhaustive_cases():
